@@ -453,3 +453,16 @@ def r14_repr_eval(ctx):
 
 
 RULES.append(('R14-repr-eval', r14_repr_eval))
+
+
+def r14_state(ctx):
+    """The round trips above start from messages in canonical form (sysex data a SysexData tuple, every attribute present).
+    That every entry point - constructor, copy, attribute assignment - leaves messages in that form is shared with C03 (R03.1,
+    R03.3): a list stored as data would print the same and compare unequal to what parses back."""
+    from . import c03
+    ctx.borrow(c03.r03_3_setattr, 'R14.0')
+    ctx.borrow(c03.r03_3_init, 'R14.0')
+    ctx.borrow(c03.r03_3_copy, 'R14.0')
+
+
+RULES.append(('R14.0', r14_state))
